@@ -46,6 +46,9 @@ theorem downloadAdd_contained (agentsDir : List Bytes) (fs : Fs) (a : LootAgent)
       cases hb : insideDir (dlTarget agentsDir a name) (dlDirStr agentsDir a) with
       | true => rfl
       | false => exact absurd hb hin
+    by_cases hnul : (dlTarget agentsDir a name).contains 0 = true
+    · rw [if_pos hnul] at h; simp at h
+    rw [if_neg hnul] at h ⊢
     cases hm : fs.mkdirWalk (splitByte slash (dlTarget agentsDir a name)) with
     | mk fs1 ok =>
       cases ok with
